@@ -185,7 +185,7 @@ def gen_cases(ctx):
                 for part in parts:
                     tp = rng.randint(0, 1)
                     add_par(rows, [(0, 1)] * n, part, "exh_par%d" % n, algos=("rs",), taps=(tp,))
-                    npm = len(perms) if (n <= 2 or (thorough and n <= 3)) else (2 if n == 3 else 1)
+                    npm = len(perms) if (n <= 2 or (thorough and n <= 3)) else 2
                     for pm in (perms if npm == len(perms) else rng.sample(perms, npm)):
                         keys = [(100 + 37 * pm[i], 1024) for i in range(n)]
                         for a in ("pmis", "cljp", "hmis", "falgout"):
